@@ -1,6 +1,8 @@
 package txn
 
 import (
+	"sync"
+	"time"
 	"encoding/json"
 	"fmt"
 	"os"
@@ -11,6 +13,7 @@ import (
 	"github.com/apmckinlay/gsuneido/db19"
 	"github.com/apmckinlay/gsuneido/db19/index"
 	"github.com/apmckinlay/gsuneido/db19/index/ixkey"
+	"github.com/apmckinlay/gsuneido/db19/stor"
 	"pgregory.net/rapid"
 	"verifharness/internal/ev"
 	"verifharness/internal/gen"
@@ -59,12 +62,15 @@ type GenOpts struct {
 	ValRange  int            // size of the value domain used (<= len(valDomain))
 	LowMaxAge bool
 	Triggers  bool
+	Pauses    bool // generate pause/release instructions (C16)
+	GlobalPct int  // share of global operations (default 8)
 }
 
 var defaultWeights = map[string]int{
 	"begin": 6, "beginread": 2, "lookup": 8, "scan": 8, "output": 14, "update": 8, "delete": 6,
 	"complete": 8, "abort": 2, "persist": 2, "mergesync": 2, "tick": 0, "admin": 0, "reread": 3,
 	"scanmod": 2, "action": 0, "trigoff": 0, "trigon": 0,
+	"pausemerge": 0, "pausepersist": 0, "waitpaused": 0, "release": 0,
 }
 
 func genProgram(t *rapid.T, o GenOpts) Program {
@@ -93,7 +99,7 @@ func genProgram(t *rapid.T, o GenOpts) Program {
 			tranOps = append(tranOps, op)
 		}
 	}
-	for _, op := range []string{"persist", "mergesync", "tick", "admin", "trigoff", "trigon"} {
+	for _, op := range []string{"persist", "mergesync", "tick", "admin", "trigoff", "trigon", "pausemerge", "pausepersist", "waitpaused", "release"} {
 		for i := 0; i < weight(op); i++ {
 			globalOps = append(globalOps, op)
 		}
@@ -200,7 +206,7 @@ func genProgram(t *rapid.T, o GenOpts) Program {
 	scripts := make([][]Instr, o.Slots)
 	total := 3 + gen.Uniform(t, "ninstr", o.MaxInstrs-2)
 	for len(p.Instrs) < total+nsetup {
-		if len(globalOps) > 0 && gen.Chance(t, "global", 8) {
+		if len(globalOps) > 0 && gen.Chance(t, "global", max(8, o.GlobalPct)) {
 			in := Instr{Op: gen.Pick(t, "gop", globalOps)}
 			if in.Op == "admin" {
 				in.T = gen.Uniform(t, "t", nt)
@@ -298,6 +304,11 @@ type Config struct {
 	Own     map[string]bool
 	Rec     *ev.Rec
 	CheckStates bool // check every state delivered by VerifStateUpdated (C06/C16)
+	// C16: the merger goroutine can be held between computing a merge/persist
+	// on a snapshot and applying it; the database runs with a 1 ms persist
+	// ticker so that ticker-driven persists race with commits; every published
+	// state's logical content is compared with the serial model
+	PauseMerger bool
 }
 
 type run struct {
@@ -316,6 +327,12 @@ type run struct {
 	labels                                                                                 map[string]int
 	states                                                                                 []*db19.DbState
 	foreign                                                                                *Violation
+	// paused merger (C16)
+	pz *pauser
+	queuedWhilePaused int
+	nAppliedAfterCommit, nPausedMerge, nPausedPersist int
+	stateMu sync.Mutex
+	newStates []*db19.DbState
 	// triggers (C44)
 	prog       *Program
 	triglog    []trigCall
@@ -816,6 +833,48 @@ func rowFromK(k []int, ncols int) Row {
 }
 
 func (r *run) exec(in Instr) {
+	if r.pz != nil {
+		switch in.Op {
+		case "persist", "mergesync", "admin":
+			// these wait for the merger: disarm and let it go first
+			r.releaseMerger()
+		case "complete":
+			if r.queuedWhilePaused >= 3 { // the checker would block on the full merge channel
+				r.releaseMerger()
+				r.mergerBarrier()
+			}
+		}
+	}
+	switch in.Op {
+	case "pausemerge":
+		if r.pz != nil {
+			r.pz.arm("merge.computed")
+			r.logf("  arm pause at merge.computed")
+		}
+		return
+	case "pausepersist":
+		if r.pz != nil {
+			r.pz.arm("persist.computed")
+			r.logf("  arm pause at persist.computed")
+		}
+		return
+	case "waitpaused":
+		if r.pz != nil {
+			if n := r.pz.waitPaused(20 * time.Millisecond); n != "" {
+				r.logf("  merger held at %s", n)
+				if n == "merge.computed" {
+					r.nPausedMerge++
+				} else {
+					r.nPausedPersist++
+				}
+			}
+		}
+		return
+	case "release":
+		r.releaseMerger()
+		r.mergerBarrier()
+		return
+	}
 	switch in.Op {
 	case "begin":
 		if r.slots[in.S] == nil {
@@ -1469,6 +1528,9 @@ func (r *run) complete(ts *tranState, slot int) {
 		r.violate(fmt.Sprintf("transaction #%d had failed (%s) but Complete reported success", ts.id, ts.why), "C03")
 	}
 	r.nCommitOK++
+	if ts.nops > 0 && r.pz != nil && r.pz.isPaused() != "" {
+		r.queuedWhilePaused++
+	}
 	if ts.nops > 0 {
 		// C01: serial replay at the commit point
 		if ts.snap.String() != r.committed.String() {
@@ -1583,7 +1645,23 @@ func RunProgram(p Program, cfg Config) (viol *Violation, st Stats) {
 	defer func() { db19.MaxAge = oldAge }()
 
 	r := &run{cfg: cfg, labels: map[string]int{}, committed: MDB{}}
-	r.db = newDb()
+	if cfg.PauseMerger {
+		r.pz = newPauser()
+		hook := r.pz.hook
+		db19.VerifPoint.Store(&hook)
+		defer db19.VerifPoint.Store(nil)
+		sf := func(s *db19.DbState) {
+			r.stateMu.Lock()
+			r.newStates = append(r.newStates, s)
+			r.stateMu.Unlock()
+		}
+		db19.VerifStateUpdated.Store(&sf)
+		defer db19.VerifStateUpdated.Store(nil)
+		r.db = db19.CreateDb(stor.HeapStor(8192))
+		db19.StartConcur(r.db, time.Millisecond) // ticker-driven persists race with commits
+	} else {
+		r.db = newDb()
+	}
 	var states []*db19.DbState
 	if cfg.CheckStates {
 		f := func(s *db19.DbState) { states = append(states, s) } // called under the state mutex, by one goroutine at a time
@@ -1600,6 +1678,9 @@ func RunProgram(p Program, cfg Config) (viol *Violation, st Stats) {
 			st.Log = r.log
 		}
 		// close in any case; a wedged pipeline is reported by the test timeout
+		if r.pz != nil {
+			r.pz.releaseNow()
+		}
 		catch(func() {
 			for _, ts := range r.slots {
 				if ts != nil && ts.isUpdate() {
@@ -1625,7 +1706,12 @@ func RunProgram(p Program, cfg Config) (viol *Violation, st Stats) {
 	}
 	for i, in := range p.Instrs {
 		r.logf("%d: %v", i, in)
+		before := r.committed
 		r.exec(in)
+		if r.pz != nil {
+			r.syncChecker()
+			r.judgeStates(before, r.committed)
+		}
 		if cfg.CheckStates && len(states) > 0 {
 			r.syncChecker()
 			ss := states
@@ -1641,6 +1727,11 @@ func RunProgram(p Program, cfg Config) (viol *Violation, st Stats) {
 			}
 			r.slots[s] = nil
 		}
+	}
+	if r.pz != nil {
+		r.releaseMerger()
+		r.mergerBarrier()
+		r.judgeStates(r.committed, r.committed)
 	}
 	r.syncChecker()
 	r.verifyCommitted("at end")
@@ -1682,6 +1773,9 @@ func RunProgram(p Program, cfg Config) (viol *Violation, st Stats) {
 	l["trigger_cascaded_calls"] = r.nTrigCascade
 	l["trigger_suppressed_while_disabled"] = r.nTrigDisabled
 	l["query_actions"] = r.nAction
+	l["merge_held_between_compute_and_apply"] = r.nPausedMerge
+	l["persist_held_between_compute_and_apply"] = r.nPausedPersist
+	l["commit_landed_between_compute_and_apply"] = r.nAppliedAfterCommit
 	st.Log = r.log
 	return nil, st
 }
@@ -1727,4 +1821,180 @@ func hasSources(w *World, m MDB, td *TableDef, row Row) bool {
 		}
 	}
 	return false
+}
+
+// ---------------------------------------------------------------- paused merger (C16)
+
+// pauser holds the merger goroutine at a named hook point.
+type pauser struct {
+	mu      sync.Mutex
+	armed   map[string]bool
+	paused  string        // name of the point the merger is held at ("" = running)
+	reached chan struct{} // signalled when the merger arrives at an armed point
+	release chan struct{}
+}
+
+func newPauser() *pauser {
+	return &pauser{armed: map[string]bool{}, reached: make(chan struct{}, 4)}
+}
+
+// hook runs in the merger goroutine.
+func (p *pauser) hook(name string) {
+	p.mu.Lock()
+	if !p.armed[name] {
+		p.mu.Unlock()
+		return
+	}
+	p.armed[name] = false
+	p.paused = name
+	p.release = make(chan struct{})
+	rel := p.release
+	p.mu.Unlock()
+	select {
+	case p.reached <- struct{}{}:
+	default:
+	}
+	<-rel
+}
+
+func (p *pauser) arm(name string) {
+	p.mu.Lock()
+	p.armed[name] = true
+	p.mu.Unlock()
+}
+
+func (p *pauser) isPaused() string {
+	p.mu.Lock()
+	defer p.mu.Unlock()
+	return p.paused
+}
+
+// waitPaused waits (bounded) until the merger is held; returns the point name.
+func (p *pauser) waitPaused(d time.Duration) string {
+	if n := p.isPaused(); n != "" {
+		return n
+	}
+	select {
+	case <-p.reached:
+	case <-time.After(d):
+	}
+	return p.isPaused()
+}
+
+func (p *pauser) releaseNow() bool {
+	p.mu.Lock()
+	defer p.mu.Unlock()
+	for k := range p.armed {
+		p.armed[k] = false
+	}
+	if p.paused == "" {
+		return false
+	}
+	p.paused = ""
+	close(p.release)
+	return true
+}
+
+// releaseMerger lets the merger continue and waits until it has drained its queue.
+func (r *run) releaseMerger() {
+	if r.pz == nil {
+		return
+	}
+	if r.pz.releaseNow() {
+		r.logf("  release merger")
+		if r.queuedWhilePaused > 0 {
+			r.nAppliedAfterCommit++
+		}
+	}
+	r.queuedWhilePaused = 0
+}
+
+// mergerBarrier: round trip through checker and merger (only when not paused).
+func (r *run) mergerBarrier() {
+	if r.pz != nil && r.pz.isPaused() != "" {
+		return
+	}
+	catch(func() { r.db.RunExclusive("zz_sync", func() {}) })
+}
+
+// stateContent compares the logical content of one published state with a
+// model; returns "" if equal.
+func (r *run) stateContent(st *db19.DbState, m MDB) string {
+	rt := r.db.VerifReadTranAt(st)
+	for _, td := range r.w.Tables {
+		sc := rt.VerifMeta().GetRoSchema(td.Name)
+		if sc == nil || len(sc.Indexes) != len(td.Idx) {
+			return "" // state of another schema version: not judged here
+		}
+	}
+	for _, td := range r.w.Tables {
+		ti := rt.GetInfo(td.Name)
+		var nrows int
+		var size int64
+		for i := range td.Idx {
+			rows := scanAll(rt, func() index.IndexIter { return rt.IndexIter(td.Name, i) }, rt.GetRecord)
+			var got []Row
+			for j, dr := range rows {
+				if j > 0 && !(rows[j-1].key < dr.key) {
+					return fmt.Sprintf("%s index %d: keys not strictly increasing (%q then %q)", td.Name, i, rows[j-1].key, dr.key)
+				}
+				got = append(got, rowOf(dr.rec, len(td.Cols)))
+				if i == 0 {
+					size += int64(dr.rec.Len())
+				}
+			}
+			if i == 0 {
+				nrows = len(rows)
+			}
+			_, want := m.sortedByIndex(td, i)
+			if !rowsEq(got, want) {
+				return fmt.Sprintf("%s via index %d (%s) holds %v, serial model has %v", td.Name, i, strings.Join(td.Idx[i].ColNames, ","), got, want)
+			}
+		}
+		// statistics: layers, deltas, btree + deltas == totals == actual
+		if ti.Nrows != nrows || ti.Size != size {
+			return fmt.Sprintf("%s: Info.Nrows=%d Size=%d but the state holds %d rows / %d bytes", td.Name, ti.Nrows, ti.Size, nrows, size)
+		}
+		dn, ds := ti.BtreeNrows, ti.BtreeSize
+		for _, d := range ti.Deltas {
+			dn += d.Nrows
+			ds += d.Size
+		}
+		if dn != ti.Nrows || ds != ti.Size {
+			return fmt.Sprintf("%s: BtreeNrows/Size + deltas = %d/%d but Nrows/Size = %d/%d", td.Name, dn, ds, ti.Nrows, ti.Size)
+		}
+		for i, ov := range ti.Indexes {
+			if ov.Nlayers() != len(ti.Deltas) {
+				return fmt.Sprintf("%s index %d has %d layers but the table has %d deltas", td.Name, i, ov.Nlayers(), len(ti.Deltas))
+			}
+		}
+	}
+	return ""
+}
+
+// judgeStates: every state published during the last operation must hold
+// exactly the serial model of the committed transactions: the model before
+// the operation, or (once the operation's own commit is in) the model after
+// it, never going back.
+func (r *run) judgeStates(before, after MDB) {
+	r.stateMu.Lock()
+	states := r.newStates
+	r.newStates = nil
+	r.stateMu.Unlock()
+	seenAfter := false
+	for _, st := range states {
+		if !seenAfter {
+			if d := r.stateContent(st, before); d == "" {
+				r.label("states_judged")
+				continue
+			} else if before.String() == after.String() {
+				r.violate(fmt.Sprintf("a state published by the background merge/persist differs from the committed transactions: %s", d), "C16")
+			}
+		}
+		if d := r.stateContent(st, after); d != "" {
+			r.violate(fmt.Sprintf("a published state differs from the serial model both before and after the current commit: %s", d), "C16")
+		}
+		seenAfter = true
+		r.label("states_judged")
+	}
 }
